@@ -5,6 +5,18 @@ import json, os
 ROOT = os.path.dirname(os.path.dirname(os.path.abspath(__file__)))
 ALL = ["C%02d" % i for i in range(1, 21)]
 CHECKS = {
+  "C08": dict(
+    technique="property-based testing with a recording generator (proptest): the source generator records every dependency it writes with its byte range; the analyser's report must equal the record; position lookup through a one-module graph; round trip of every reported range over the repository's spec corpus",
+    text="Generated programs over every dependency-bearing form for 7 media types with non-ASCII / astral trivia, CRLF, shebang, escapes, templates, nesting in functions / classes / namespaces / declare-module blocks, pragma styles and JSDoc forms. Oracles: the multiset of reported dependencies (kind, cooked text, attributes, dynamic argument shape, types pragma) equals the record - every one once, nothing else; each reported range converted with an independent line/character counter equals the recorded byte range; Dependency::includes finds exactly the owning dependency and its range for positions inside a site; corpus layer: the source slice at every reported range is the specifier. Exploration only.",
+    design_ref="DESIGN.md §4 C08",
+    note="Trusted: the generator's own bookkeeping of byte offsets; swc as the parser on the implementation side only.",
+  ),
+  "C13": dict(
+    technique="property-based round-trip and differential testing (proptest): ModuleInfo -> JSON -> ModuleInfo on analyser-produced values; moduleGraph1 rendering upgraded vs the moduleGraph2 original; registry built from embedded module info vs from parsing",
+    text="(a) every ModuleInfo the analyser produces from generated programs round-trips through its JSON form (equality and fixed point); (b) the legacy rendering of the same value (types specifier replaced by the leading comment) upgrades to the same @deno-types text and range; (c) generated registries published with moduleGraph2 computed by this analyser vs without, with a cache image deciding cached/uncached content per file, under all graph kinds: equal serialised graph, source texts and errors. Exploration only.",
+    design_ref="DESIGN.md §4 C13",
+    note="Trusted: serde_json; the registry materialiser (engine/src/registry.rs).",
+  ),
   "C05": dict(
     technique="property-based testing with log invariants (proptest): every Loader::load / ensure_cached call and every Locker call of a build over generated remote + registry worlds and lockfile images is checked against the expected-checksum table",
     text="Generated worlds: a remote entry module importing remote modules on every load path (static, dynamic, text asset, type-only, redirecting URL, declaration file, http:, UTF-8 BOM, UTF-16 with charset) plus jsr: requirements and https://jsr.io/ URLs of a generated registry (with / without embedded module info and cache image); lockfile entries per URL and per version manifest absent / matching / mismatching; registry files optionally tampered. Oracles: each content-consuming call presents the known checksum; rejected content is never a module, is an integrity error, with exactly one cache-bypassing retry for non-registry URLs and none for registry files; checksummed redirect rejected; new remote modules and manifests recorded once with SHA-256 of the served bytes (or lockfileChecksum); existing entries never overwritten. Exploration only.",
